@@ -8,12 +8,15 @@ def run(chk):
                 'link to non-sticky) with a populated .Trash/$uid (an item whose restore target is free, which matches '
                 'the rm pattern and is older than DAYS, optionally an orphan); the projection of .Trash/$uid must stay '
                 'as the specification says (untouched when insecure), trash-list must report the skipped directory; '
-                'all generated cases are executed; stage mid-run-change: one trash-put with two arguments of one volume, run in lock-step, '
+                'all generated cases are executed; stage trash-dirs-report: trash-list --trash-dirs names the directories in use and the '
+                'refused ones with the reason, --volumes the mounted volumes; stage mid-run-change: one trash-put with two arguments of one volume, run in lock-step, '
                 '.Trash made insecure (sticky bit removed / replaced by a symlink) between the two: both halves are judged by TLC '
                 '(TrashTrace) against PutApply under the state of their own time; non-trivial = state changed or command had to fail')
     chk.assumptions += common.ASSUME
     common.mc(chk, properties=['InsecureFrozen'])
     common.gen_tt(chk, 'insecure', 'Init_Insecure', 'Next_Insecure', 10, None, thorough_seeds=4)
+    # what the reading commands would use and what they refuse, as trash-list --trash-dirs reports it (and --volumes)
+    common.gen_tt(chk, 'trash-dirs-report', 'Init_Insecure', 'Next_ListDirs', 10, None, thorough_seeds=3)
     midrun_stage(chk)
     chk.exhaustive = True
 
